@@ -4,7 +4,7 @@ CONSTANTS
   MaxT = 7
   MaxC = 1
   Dups = TRUE
-  MaxEdits = 2
+  MaxEdits = 1
   Edits = TRUE
   KindSel = "some"
   MinVals = 0
